@@ -41,7 +41,7 @@ func (c16) Components() map[string][]string {
 	}
 }
 func (c16) ProbeNames() []string {
-	return []string{"src-hostdir", "src-memfs-shortreads", "src-fat32", "src-ext4", "src-iso-rr", "src-squashfs", "dst-fat12", "dst-fat16", "dst-fat32", "dst-ext4", "copy-accepted", "compare-nil-on-faithful", "mutation-detected", "device-flip", "excluded-name", "streamed-over-64MiB"}
+	return []string{"src-hostdir", "src-memfs-shortreads", "src-fat32", "src-ext4", "src-iso-rr", "src-squashfs", "dst-fat12", "dst-fat16", "dst-fat32", "dst-ext4", "copy-accepted", "compare-nil-on-faithful", "mutation-detected", "device-flip", "excluded-name", "streamed-over-64MiB", "copy-over-older-copy"}
 }
 func (c16) Budget(tier string) (int, int, int) {
 	if tier == "thorough" {
@@ -62,6 +62,7 @@ func (c16) Gen(r *core.Rng, tier string, idx int) *core.Trace {
 	t.Cfg["nfiles"] = r.Range(1, 9)
 	t.Cfg["depth"] = r.Range(0, 3)
 	t.Cfg["excluded"] = int64(r.Intn(2))
+	t.Cfg["recopy"] = int64(r.PickW(65, 35))
 	t.Cfg["bigfile"] = 0
 	if (tier == "thorough" && r.Chance(3)) || (tier == "quick" && r.Chance(1)) {
 		// one file above the 64 MiB threshold, where CopyFileSystem streams instead of reading the file whole;
@@ -364,6 +365,9 @@ func (o *overlayFS) Stat(name string) (iofs.FileInfo, error) {
 }
 
 func (o *overlayFS) ReadDir(name string) ([]iofs.DirEntry, error) {
+	if o.kind == "extradir" && name == o.path {
+		return nil, nil // the extra directory is a proper, empty directory: listing it succeeds
+	}
 	ents, err := iofs.ReadDir(o.base, name)
 	if err != nil {
 		return nil, err
@@ -609,6 +613,24 @@ func (p c16) Exec(t *core.Trace) *core.Result {
 		return res
 	}
 	trig := fmt.Sprintf("copy(%s->%s)", srcKind, kindFamily(dstKind))
+	if t.I("recopy") == 1 && t.I("bigfile") != 1 {
+		// the destination already holds an earlier, longer version of every file (a previous copy of the tree
+		// before its files shrank): the copy has to replace them, not write over their beginnings
+		var older []imgEntry
+		for _, e := range tree {
+			o := e
+			if !e.Dir && e.Link == "" {
+				o.Data = append(append([]byte(nil), e.Data...), core.PatternBytes(uint64(t.I("tag"))^core.HashStr(e.Path), 700+int64(len(e.Data)%900))...)
+			}
+			older = append(older, o)
+		}
+		pre := newMemFS(older, 0, uint64(t.I("tag")), core.NewResult())
+		var perr error
+		if pk, _, _, _ := core.Guard(func() { perr = dsync.CopyFileSystem(pre, dst) }); !pk && perr == nil {
+			trig = fmt.Sprintf("copy(%s->%s,over-older-copy)", srcKind, kindFamily(dstKind))
+			res.Probe("copy-over-older-copy")
+		}
+	}
 	var cerr error
 	if pk, pv, loc, _ := core.Guard(func() { cerr = dsync.CopyFileSystem(src, dst) }); pk {
 		return fail("panic", trig+":"+core.PanicClass(pv), loc, fmt.Sprint(pv))
